@@ -157,13 +157,13 @@ def marshal_StrSlice : Val → Out
 def decode_ShellCommand : Val → Out
   | .null => .ok .null                 -- mapstructure leaves the zero value on a nil input
   | .str _ => .unmodelled "shellwords"
-  | .seq xs => if allStr xs then .ok (.seq xs) else .err "panic:not-a-string"
+  | .seq xs => if allStr xs then .ok (.seq xs) else .err "invalid-type"
   | _ => .ok .null
 
 def decode_HealthCheckTest : Val → Out
   | .null => .ok .null
   | .str s => .ok (.seq [.str "CMD-SHELL", .str s])
-  | .seq xs => if allStr xs then .ok (.seq xs) else .err "panic:not-a-string"
+  | .seq xs => if allStr xs then .ok (.seq xs) else .err "invalid-type"
   | _ => .err "invalid-type"
 
 def decode_StringList : Val → Out
@@ -292,7 +292,7 @@ def decode_Ulimits (v : Val) : Out :=
   | .map kvs =>
     match Val.lookup "soft" kvs, Val.lookup "hard" kvs with
     | some (.int s), some (.int h) => .ok (mkUlimit 0 s h)
-    | _, _ => .err "panic:not-an-int"
+    | _, _ => .err "invalid-type"
   | _ => .err "invalid-type"
 
 /-! ## EnvFile — `types/envfile.go`, `transform/envfile.go` -/
